@@ -49,3 +49,57 @@ package trace
 //@ func newMember(key string, value string) (m member, err error)
 //@   ensures (err == nil) == (w3cKey(key) && w3cValue(value))
 //@   ensures err == nil ==> m.Key == key && m.Value == value
+
+//@ spec validMember(m member) bool = w3cKey(m.Key) && w3cValue(m.Value)
+//@ spec ows(c byte) bool = c == ' ' || c == '\t'
+//@ func parseMember(m string) (r member, err error)
+//@   ensures err == nil ==> validMember(r)
+//@   ensures err == nil ==> exists p in 0 .. len(m) : m[p] == '=' && (forall q in 0 .. p : m[q] != '=')
+
+// ---- TraceState: representation invariant (all members valid, keys pairwise distinct, at most 32)
+//@ spec hasKey(l []member, k string) bool = exists i in 0 .. len(l) : l[i].Key == k
+//@ spec distinctKeys(l []member) bool = forall i in 0 .. len(l) : forall j in 0 .. i : l[i].Key != l[j].Key
+//@ spec validTS(l []member) bool = len(l) <= 32 && (forall i in 0 .. len(l) : validMember(l[i])) && distinctKeys(l)
+//@ typeinv TraceState = validTS(self.list)
+
+//@ func ParseTraceState(ts string) (r TraceState, err error)
+//@   ensures ts == "" ==> err == nil && len(r.list) == 0
+//@   ensures err != nil ==> len(r.list) == 0
+//@   ensures err == nil ==> validTS(r.list)
+//@   loop#1 invariant len(members) <= 32 && (forall i in 0 .. len(members) : validMember(members[i])) && distinctKeys(members)
+//@   loop#1 invariant forall k in 0 .. len(members) : has(found, members[k].Key)
+//@   loop#1 invariant found != nil
+//@   loop#1 invariant fresh(members) && framed()
+
+//@ func (ts TraceState) Len() (n int)
+//@   ensures n == len(ts.list)
+//@ func (ts TraceState) Get(key string) (v string)
+//@   ensures !hasKey(ts.list, key) ==> v == ""
+//@   ensures hasKey(ts.list, key) ==> exists i in 0 .. len(ts.list) : ts.list[i].Key == key && v == ts.list[i].Value
+//@   loop#1 invariant forall q in 0 .. $k : ts.list[q].Key != key
+
+// Insert: newest (or updated) member first, the rest keep their order, only the right-most is dropped on overflow,
+// the receiver's list is untouched, invalid input returns the original TraceState.
+//@ func (ts TraceState) Insert(key string, value string) (r TraceState, err error)
+//@   ensures (err == nil) == (w3cKey(key) && w3cValue(value))
+//@   ensures err != nil ==> r.list === ts.list
+//@   ensures err == nil ==> len(r.list) >= 1 && r.list[0].Key == key && r.list[0].Value == value
+//@   ensures err == nil && hasKey(ts.list, key) ==> len(r.list) == len(ts.list)
+//@   ensures err == nil && !hasKey(ts.list, key) ==> len(r.list) == min(32, len(ts.list)+1)
+//@   ensures err == nil ==> exists p in 0 .. len(ts.list)+1 : (p == len(ts.list) || ts.list[p].Key == key) && (forall j in 0 .. p : ts.list[j].Key != key) && (forall j in 0 .. p : j+1 < len(r.list) ==> r.list[j+1] == ts.list[j]) && (forall j in p+1 .. len(ts.list) : r.list[j] == ts.list[j])
+//@   ensures err == nil ==> fresh(r.list)
+//@   ensures unchanged(ts.list)
+//@   loop#1 invariant (found == n && (forall q in 0 .. $k : ts.list[q].Key != key)) || (0 <= found && found < $k && ts.list[found].Key == key)
+
+// Delete: a copy without the member keyed key (order kept); the receiver's list is untouched.
+//@ func (ts TraceState) Delete(key string) (r TraceState)
+//@   ensures !hasKey(ts.list, key) ==> r.list == ts.list
+//@   ensures hasKey(ts.list, key) ==> exists p in 0 .. len(ts.list) : ts.list[p].Key == key && len(r.list) == len(ts.list)-1 && (forall j in 0 .. p : r.list[j] == ts.list[j]) && (forall j in p .. len(r.list) : r.list[j] == ts.list[j+1])
+//@   ensures fresh(r.list)
+//@   ensures unchanged(ts.list)
+//@   loop#1 invariant forall q in 0 .. $k : ts.list[q].Key != key
+
+//@ func (ts TraceState) String() (s string)
+//@   ensures len(ts.list) == 0 ==> s == ""
+//@   loop#1 invariant 0 <= n && n <= 2*len(ts.list) + $k*512
+//@   loop#2 invariant 1 <= i && i <= len(ts.list)
